@@ -22,6 +22,50 @@ pub fn filler(len: usize) -> Call<Filler> {
     c
 }
 
+/// A call of exactly `len` bytes whose padding comes FIRST, so that what straddles the end of the buffer
+/// (and has to be re-serialized after the buffer grew) is something else than a plain string: a value
+/// written through `collect_str` (a `Display` impl), numbers, a float, a map, a char, an escape.
+#[derive(Debug, Serialize)]
+#[serde(tag = "method", content = "parameters")]
+pub enum Varied {
+    #[serde(rename = "v")]
+    V {
+        p: String,
+        #[serde(serialize_with = "as_display")]
+        addr: std::net::SocketAddr,
+        n: Vec<i64>,
+        f: f64,
+        m: std::collections::BTreeMap<String, Option<bool>>,
+        c: char,
+        e: &'static str,
+    },
+}
+
+fn as_display<T: std::fmt::Display, S: serde::Serializer>(v: &T, s: S) -> Result<S::Ok, S::Error> {
+    s.collect_str(v)
+}
+
+pub fn filler_varied(len: usize) -> Option<Call<Varied>> {
+    let mk = |pad: usize| {
+        Call::new(Varied::V {
+            p: "y".repeat(pad),
+            addr: "[2001:db8::8a2e:370:7334]:65535".parse().unwrap(),
+            n: vec![-1, 0, 9_223_372_036_854_775_807, 42],
+            f: 6.02214076e23,
+            m: [("k".to_string(), Some(true)), ("none".to_string(), None)].into_iter().collect(),
+            c: 'é',
+            e: "tab\there \"quoted\" \u{1}",
+        })
+    };
+    let base = serde_json::to_vec(&mk(0)).unwrap().len();
+    if len < base {
+        return None;
+    }
+    let c = mk(len - base);
+    debug_assert_eq!(serde_json::to_vec(&c).unwrap().len(), len);
+    Some(c)
+}
+
 #[cfg(zlink_verif)]
 fn hook(v: &V, buf: &mut [u8]) -> Result<usize, bool> {
     // Err(true) = BufferTooSmall, Err(false) = other
